@@ -419,6 +419,14 @@ func regoC13(c *checkCtx) {
 		progs = append(progs, regosym.Program{Name: t[0], Plain: true, Validations: []regosym.Validation{{Name: t[1], Level: "violation", Class: 0, Message: t[2],
 			F: regosym.And{Fs: []regosym.Formula{regosym.Atom{Path: regosym.P(1), Kind: "minCount", N: 1}}}}}})
 	}
+	// two properties whose names differ only in a dash for the underscore (an identifier made from the
+	// names by replacing punctuation cannot tell them apart), both shown in one message
+	for _, m := range []string{"{{ex.p1}} / {{ex.p2}} / {{ex.p1}}", "a {{ ex.p2 }} b {{ex.p1}}"} {
+		m = regosym.FixPreds(m)
+		msgs = append(msgs, m)
+		progs = append(progs, regosym.Program{Name: "P", Validations: []regosym.Validation{{Name: "v", Level: "violation", Class: 0, Message: m,
+			F: regosym.And{Fs: []regosym.Formula{regosym.Atom{Path: regosym.P(2), Kind: "maxCount", N: 0}}}}}})
+	}
 	scope := func(p regosym.Program) regosym.Scope {
 		sc := regosym.ScopeFor(p, 2, 2, 2)
 		sc.Scalars = regosym.MessagePool()
